@@ -867,6 +867,15 @@ def gen_code_for_conv(to_type, node, code, codegen):
         code.add((f'conv{from_char}{to_char}',))
 
 
+def gen_code_for_cond(cond, code, codegen):
+    # Evaluates a numeric condition and leaves INTEGER -1 on the stack if
+    # its value is non-zero (true) and 0 otherwise.  The value is compared
+    # with zero in its own type: converting it to INTEGER first would
+    # overflow for large values and round small fractions down to false.
+    codegen.gen_code_for_node(cond, code)
+    code.add((f'push{cond.type.type_char}', 0), ('cmp',), ('ne',))
+
+
 def gen_code_for_args(args, param_types, code, codegen):
     for arg, param_type in zip(args, param_types):
         if isinstance(arg, expr.Lvalue):
@@ -1427,8 +1436,7 @@ def gen_loop(node, code, codegen):
 
     code.add(('_label', do_label))
     if node.kind.startswith('do_'):
-        codegen.gen_code_for_node(node.cond, code)
-        gen_code_for_conv(expr.Type.INTEGER, node.cond, code, codegen)
+        gen_code_for_cond(node.cond, code, codegen)
         if node.kind == 'do_until':
             code.add(('not',))
         code.add(('jz', loop_label))
@@ -1436,7 +1444,7 @@ def gen_loop(node, code, codegen):
     gen_code_for_block(node.body, code, codegen)
 
     if node.kind.startswith('loop_'):
-        codegen.gen_code_for_node(node.cond, code)
+        gen_code_for_cond(node.cond, code, codegen)
         if node.kind == 'loop_while':
             code.add(('not',))
         code.add(('jz', do_label))
@@ -1615,8 +1623,7 @@ def gen_if_block(node, code, codegen):
     for cond, body in node.if_blocks:
         else_label = codegen.get_label('else')
 
-        codegen.gen_code_for_node(cond, code)
-        gen_code_for_conv(expr.Type.INTEGER, cond, code, codegen)
+        gen_code_for_cond(cond, code, codegen)
         code.add(('jz', else_label))
 
         if cur_else_stmt and codegen.debug_info_enabled:
@@ -1649,8 +1656,7 @@ def gen_if_stmt(node, code, codegen):
     else_label = codegen.get_label('else')
     endif_label = codegen.get_label('endif')
 
-    codegen.gen_code_for_node(node.cond, code)
-    gen_code_for_conv(expr.Type.INTEGER, node.cond, code, codegen)
+    gen_code_for_cond(node.cond, code, codegen)
     code.add(('jz', else_label))
     gen_code_for_block(node.then_stmts, code, codegen)
     code.add(('jmp', endif_label))
@@ -1949,8 +1955,7 @@ def gen_while_block(node, code, codegen):
     wend_label = codegen.get_label('wend')
 
     code.add(('_label', check_label))
-    codegen.gen_code_for_node(node.cond, code)
-    gen_code_for_conv(expr.Type.INTEGER, node.cond, code, codegen)
+    gen_code_for_cond(node.cond, code, codegen)
     code.add(('jz', wend_label))
 
     code.add(('_label', body_label))
